@@ -296,6 +296,7 @@ class Interp:
         if key in self.opaque_summaries:
             return self.opaque_summaries[key](self, args, kwargs)
         self.funcs_seen.add(f"{fi.module}.{fi.qualname}")
+        self.trace.append(f"{fi.module}.{fi.qualname}")
         self.oplog.append(('call', fi.qualname, self_obj.id if isinstance(self_obj, AObj) else None))
         self.call_depth += 1
         if self.call_depth > 40:
